@@ -8,7 +8,11 @@
 EXTENDS Integers, Sequences, FiniteSets, TLC
 
 Routes == {"root", "peers", "add", "delete", "set", "set-torrent", "junk", "torrent-dir", "torrent-file", "torrent-meta", "playlist", "subdir", "file",
-           "single-dir", "single-playlist", "single-dirplaylist", "magnet-dir"}   \* the same views of a single-file torrent (its name is the file name)
+           "single-dir", "single-playlist", "single-dirplaylist", "magnet-dir",   \* the same views of a single-file torrent (its name is the file name)
+           \* paths that the interface does not name itself, but that packages of the standard library and common
+           \* instrumentation register on the default multiplexer the interface is served from
+           "debug-pprof", "debug-pprof-cmdline", "debug-pprof-goroutine", "debug-pprof-heap", "debug-pprof-symbol", "debug-vars", "debug-requests",
+           "debug-events", "metrics", "favicon", "deep-path"}
 Methods == {"GET", "HEAD", "POST", "PUT", "DELETE"}
 \* host classes: local ones, foreign DNS names (with and without port), the same name in capitals, none
 Hosts == {"localhost:p", "127.0.0.1:p", "[::1]:p", "evil.example:p", "evil.example", "localhost.evil.example:p", "LOCALHOST:p", "empty"}
